@@ -5,3 +5,4 @@ import Properties.C07
 import Properties.C06
 import Properties.C08
 import Properties.C09
+import Properties.C03
